@@ -47,6 +47,43 @@ func vhInlinedSig(s Storable) []uint64 {
 	return nil
 }
 
+// vhElementsSig: content signature of a map element list, descending into
+// collision groups (inline groups recursively, external groups by reference).
+func vhElementsSig(es elements) []uint64 {
+	var sig []uint64
+	switch x := es.(type) {
+	case *hkeyElements:
+		sig = append(sig, 10, uint64(len(x.elems)), uint64(x.size), uint64(x.level))
+		for i, el := range x.elems {
+			sig = append(sig, uint64(x.hkeys[i]))
+			sig = append(sig, vhElementSig(el)...)
+		}
+	case *singleElements:
+		sig = append(sig, 11, uint64(len(x.elems)), uint64(x.size), uint64(x.level))
+		for _, el := range x.elems {
+			sig = append(sig, vhElementSig(el)...)
+		}
+	}
+	return sig
+}
+
+func vhElementSig(el element) []uint64 {
+	var sig []uint64
+	switch x := el.(type) {
+	case *singleElement:
+		a, _ := vhElemSig(x.key)
+		b, c := vhElemSig(x.value)
+		sig = append(sig, 20, uint64(x.size), a, b, c)
+		sig = append(sig, vhInlinedSig(x.value)...)
+	case *inlineCollisionGroup:
+		sig = append(sig, 21)
+		sig = append(sig, vhElementsSig(x.elements)...)
+	case *externalCollisionGroup:
+		sig = append(sig, 22, x.slabID.IndexAsUint64(), uint64(x.size))
+	}
+	return sig
+}
+
 func vhSlabSig(slab Slab) []uint64 {
 	var sig []uint64
 	switch s := slab.(type) {
@@ -70,18 +107,7 @@ func vhSlabSig(slab Slab) []uint64 {
 		}
 	case *MapDataSlab:
 		sig = append(sig, 3, uint64(s.header.size), uint64(s.header.firstKey), s.next.IndexAsUint64())
-		if he, ok := s.elements.(*hkeyElements); ok {
-			sig = append(sig, uint64(len(he.elems)), uint64(he.size))
-			for i, el := range he.elems {
-				sig = append(sig, uint64(he.hkeys[i]), uint64(el.Size()))
-				if se, ok := el.(*singleElement); ok {
-					a, _ := vhElemSig(se.key)
-					b, c := vhElemSig(se.value)
-					sig = append(sig, a, b, c)
-					sig = append(sig, vhInlinedSig(se.value)...)
-				}
-			}
-		}
+		sig = append(sig, vhElementsSig(s.elements)...)
 		if s.extraData != nil {
 			sig = append(sig, s.extraData.Count, vhTypeSig(s.extraData.TypeInfo))
 		}
